@@ -321,13 +321,11 @@ Proof.
   intros s d z k [HI _] (Hz & Hdz & Hk). unfold set_poly.
   destruct (Inv0_parser s d k HI) as [HI0 Hr0].
   set (s0 := parser_effect Fixed s d k) in *.
-  destruct k.
-  - destruct (set_degree_fixed (with_zr s0 z) (d - z) KMonomial (Inv0_with_zr _ _ HI0) Hdz) as (A & B & C).
-    split; [exact A|]. split; [exact B|]. rewrite C. apply poly_rest_parser. exact Hr0.
+  destruct (non_monomial k) eqn:Enm.
   - assert (z = 0) by (apply Hk; reflexivity). subst z. replace (d - 0) with d in * by lia.
-    destruct (set_degree_fixed (with_zr s0 0) d KSecular (Inv0_with_zr _ _ HI0) Hdz) as (A & B & C).
+    destruct (set_degree_fixed (with_zr s0 0) d k (Inv0_with_zr _ _ HI0) Hdz) as (A & B & C).
     split; [exact A|]. split; [exact B|]. rewrite C. apply poly_rest_parser. exact Hr0.
-  - destruct (set_degree_fixed (with_zr s0 z) (d - z) KFileMonomial (Inv0_with_zr _ _ HI0) Hdz) as (A & B & C).
+  - destruct (set_degree_fixed (with_zr s0 z) (d - z) k (Inv0_with_zr _ _ HI0) Hdz) as (A & B & C).
     split; [exact A|]. split; [exact B|]. rewrite C. apply poly_rest_parser. exact Hr0.
 Qed.
 
@@ -399,6 +397,7 @@ Proof.
       + cbn. rewrite Hc2. exact Hc1. }
   destruct (alg s1); [exact Htouch|].
   destruct (exitreq s1); [|exact Htouch].
+  destruct (kind s1); try exact Htouch.
   split; [exact Hok | apply Hfl].
 Qed.
 
@@ -591,14 +590,32 @@ Proof.
 Qed.
 
 Theorem exit_flag_makes_secular_solve_fail : forall s, Inv s -> s.(ctx) = true -> s.(have_poly) = true ->
-  s.(err) = false -> s.(exitreq) = true -> s.(alg) = AlgoS ->
+  s.(err) = false -> s.(exitreq) = true -> s.(alg) = AlgoS -> s.(kind) = KSecular ->
   (fst (step Fixed s OSolve)).(err) = true.
 Proof.
-  intros s HI Ec Ep Ee Ex Ea. unfold step. rewrite Ec. cbn [negb]. unfold solve. rewrite Ep, Ee. cbn [negb].
+  intros s HI Ec Ep Ee Ex Ea Ek. unfold step. rewrite Ec. cbn [negb]. unfold solve. rewrite Ep, Ee. cbn [negb].
   destruct (prepare_fixed s HI Ep Ec) as (_ & _ & Hr).
   destruct (solve_prepare s) as [s1 ok1]. cbn [fst] in Hr.
-  unfold rest in Hr. injection Hr as _ _ _ _ _ _ _ Hx Ha _ _ _ _ _.
-  rewrite Ha, Ea, Hx, Ex. reflexivity.
+  unfold rest in Hr. injection Hr as _ _ _ _ _ _ _ Hx Ha _ _ Hk _ _.
+  rewrite Ha, Ea, Hx, Ex, Hk, Ek. reflexivity.
+Qed.
+
+(* ... and for polynomial input the aborted secular solve returns without any error (secular-ga.c:295 -> cleanup -> :623) *)
+Theorem exit_flag_quiet_for_polynomial_input : forall s, Inv s -> s.(ctx) = true -> s.(have_poly) = true ->
+  s.(err) = false -> s.(exitreq) = true -> s.(kind) <> KSecular ->
+  (fst (step Fixed s OSolve)).(err) = false /\ (fst (step Fixed s OSolve)).(exitreq) = true.
+Proof.
+  intros s HI Ec Ep Ee Ex Ek. unfold step. rewrite Ec. cbn [negb]. unfold solve. rewrite Ep, Ee. cbn [negb].
+  destruct (prepare_fixed s HI Ep Ec) as (_ & _ & Hr).
+  destruct (solve_prepare s) as [s1 ok1]. cbn [fst] in Hr.
+  unfold rest in Hr. injection Hr as _ _ _ _ _ _ He Hx Ha _ _ Hk _ _.
+  assert (T : err (fst (let '(s2, ok2) := exec_mops s1 (touch_mops s1) in (with_solve s2 true (sec s2) false, ok1 && ok2))) = false /\
+              exitreq (fst (let '(s2, ok2) := exec_mops s1 (touch_mops s1) in (with_solve s2 true (sec s2) false, ok1 && ok2))) = true).
+  { pose proof (exec_mops_rest (touch_mops s1) s1) as Hr2.
+    destruct (exec_mops s1 (touch_mops s1)) as [s2 ok2]. cbn [fst] in Hr2.
+    unfold rest in Hr2. injection Hr2 as _ _ _ _ _ _ He2 Hx2 _ _ _ _ _ _. cbn. rewrite He2, Hx2, He, Hx, Ee, Ex. split; reflexivity. }
+  destruct (alg s1); [exact T|]. destruct (exitreq s1); [|exact T].
+  destruct (kind s1) eqn:Ek1; try exact T. exfalso. apply Ek. symmetry. exact Hk.
 Qed.
 
 (* ---------- the code as it is today: refutations (replayed on the real library by checks/C15.py) ---------- *)
@@ -663,12 +680,12 @@ Proof.
   pose proof (exec_mops_rest) as R.
   unfold solve_prepare. cbn [add_pool init alg sec n].
   destruct (init s).
-  - cbn. destruct (alg s); [|destruct (exitreq s)]; cbn;
+  - cbn. destruct (alg s); [|destruct (exitreq s); [destruct (kind s)|]]; cbn;
       try (match goal with |- context [exec_mops ?x ?y] => pose proof (R y x) as Hr; destruct (exec_mops x y) as [s2 ok2] end;
            unfold rest in Hr; cbn in Hr; injection Hr as _ _ _ _ _ _ _ _ _ _ _ _ _ Hpl; cbn; exact Hpl); reflexivity.
   - match goal with |- context [exec_mops ?x ?y] => pose proof (R y x) as Hr0; destruct (exec_mops x y) as [s1 ok1] end.
-    unfold rest in Hr0. cbn in Hr0. injection Hr0 as _ _ _ _ _ _ _ Hx Ha _ _ _ _ Hpl0.
-    cbn. rewrite Ha, Hx. destruct (alg s); [|destruct (exitreq s)]; cbn;
+    unfold rest in Hr0. cbn in Hr0. injection Hr0 as _ _ _ _ _ _ _ Hx Ha _ _ Hk _ Hpl0.
+    cbn. rewrite Ha, Hx, Hk. destruct (alg s); [|destruct (exitreq s); [destruct (kind s)|]]; cbn;
       try (match goal with |- context [exec_mops ?x ?y] => pose proof (R y x) as Hr; destruct (exec_mops x y) as [s2 ok2] end;
            unfold rest in Hr; cbn in Hr; injection Hr as _ _ _ _ _ _ _ _ _ _ _ _ _ Hpl; cbn; rewrite Hpl; exact Hpl0); exact Hpl0.
 Qed.
